@@ -525,7 +525,8 @@ Definition read_vertices_chunk (o : opts) (h : fhdr) (st : rst) (d : dec) : R (r
   else
     do _ <- validate_span (h_nv h) (r_nvr st) first count;
     let pos_size := elem_size_VertexEncoding enc * h_dim h in       (* uint64_t pos_size = uint8 * uint8 *)
-    if negb (len d3 =? count * pos_size) then state_error S_ErrorInvalidChunkSize      (* uint64_t pos_size: count < 2^32, pos_size <= 8 * 255 *)
+    (* span.count * pos_size, in the integer type the library computes it in (Gen/OvmbFormat.v: vert_product_bits, regenerated) *)
+    if negb (len d3 =? (count * pos_size) mod 2 ^ vert_product_bits) then state_error S_ErrorInvalidChunkSize
     else if enc =? VertexEncoding_None then
       (* call_with_decoder(None): nothing is read; the vertices keep their default position *)
       Ret (add_verts count (repeat (zero_pos (Z.to_nat (o_dim o))) (Z.to_nat count)) st, d3)
@@ -606,7 +607,7 @@ Definition read_topo_chunk (o : opts) (h : fhdr) (st : rst) (d : dec) : R (rst *
                if venc =? IntEncoding_None then state_error S_ErrorInvalidFile
                else do r <- read_n_ints venc count (fun x => Ret x) d6; let (vals, d7) := r in
                     Ret (Some vals, fold_left Z.add vals 0, d7)
-             else Ret (None, valence * count, d6));                    (* static_cast<uint64_t>(valence) * count: a byte times 32 bits *)
+             else Ret (None, (valence * count) mod 2 ^ topo_product_bits, d6));     (* header.valence * header.span.count in the type the library computes it in (Gen: topo_product_bits) *)
     let '(vals, total_handles, d7) := v in
     let expected := wrap64 (total_handles * elem_size_IntEncoding henc) in
     if negb (len d7 =? expected) then state_error S_Error
